@@ -310,3 +310,8 @@ CONTRACTS = [
              [('returns_registered_object_or_registers_at_exactly_pk', _im_spec), ('class_refinement_only_to_subclass', _im_refinement)],
              allowed_exc=(core.CacheIndexError,), replay=False),
 ]
+
+from contracts import c13 as _c13
+# a refused / failed modification must leave the session as it was - identity map, key indexes, save queue and statuses included (contracted under C13 and shared here:
+# a refused cascading delete that loses an index entry yields a second object for one key (C11) and a delete that cannot be retried (C15))
+CONTRACTS += [c for c in _c13.CONTRACTS if c.id == 'handlers_with_fault_injection']
